@@ -267,3 +267,11 @@ def replay(spec):
           if np.abs(got - want).max() > tol:
               fails.append('%s: one-step rate of the integrator (steps %.6g, %.6g s) differs from Newton\'s law in ECEF by %.3g (tolerance %.3g)' % (nm, h2, h1, np.abs(got - want).max(), tol))
     return {'violated': bool(fails), 'detail': fails}
+
+
+RIM = {'lat': -84.6, 'lon': 150.0, 'alt': 15000.0, 'VN': 250.0, 'VE': -200.0, 'VD': 5.0, 'roll': 120.0, 'pitch': -60.0, 'heading': -170.0}
+
+
+def FALLBACK(tier):
+    """numeric oracle specs put to the compiled code when the symbolic run is inconclusive (main.py)"""
+    return [{'check': 'consistency', 'point': p, 'params': {'type': st}} for st in ('ideal', 'rate', 'increment') for p in ({}, RIM)]
